@@ -80,6 +80,14 @@ def denote(interp: Interpreter, action, squared: bool = False) -> dict:
             "val": [encode(v, squared) for v in vals.reshape(-1)]}
 
 
+def first(*args):
+    """A user payload for reduce(): order sensitive and batchable (the first of the batch firsts is the first)."""
+    return args[0]
+
+
+first.batchable = True  # the marker Action.reduce looks at
+
+
 def _add(action, k):
     return action.add(k)
 
@@ -94,6 +102,8 @@ def apply_op(action, o: dict, other):
         return getattr(action, op)(dim, batch_size=n, keep_dim=keep)
     if op == "rmean":
         return action.reduce(Payload(backends.mean), dim=dim, batch_size=n, keep_dim=keep)
+    if op == "rfirst":
+        return action.reduce(Payload(first), dim=dim, batch_size=n, keep_dim=keep)
     if op == "concatenate":
         return action.concatenate(dim, batch_size=n, keep_dim=keep)
     if op == "stack":
